@@ -13,7 +13,12 @@ import (
 )
 
 func init() {
-	register("C10", propC10)
+	register("C10", func(w *World, r *Report, tier string) {
+		propC10(w, r, tier)
+		// deterministic function of the arguments: the result of a decode must not depend on what the
+		// Message held before the call - the family struct and the body are allocated afresh (C05's rules)
+		importRules(w, r, "C05", tier, []string{"dispatch.header-read", "dispatch.one-body"}, "decode is a function of its input only: nothing of an earlier decode into the same Message survives")
+	})
 	register("C19", propC19)
 }
 
